@@ -24,6 +24,46 @@ def accidental_header(data: bytes, before: int) -> bool:
     return False
 
 
+def probe_outcome(data: bytes, o: int):
+    """harness' own classification of what probing offset o finds (independent of the library)"""
+    if o + 64 > len(data):
+        return "eof_dos"
+    lf = struct.unpack_from("<i", data, o + 60)[0]
+    if not (0 < lf < 1024):
+        return "bad_lfanew"
+    if o + 4 + lf + 20 > len(data):
+        return "eof_hdr"
+    m = struct.unpack_from("<H", data, o + 4 + lf)[0]
+    return {0x014C: "x86", 0x8664: "x64"}.get(m, "bad_machine")
+
+
+def concretise_probes(probe):
+    """file whose offsets 0, 4, 8, 12 probe with the given outcomes and whose other offsets hold no PE header"""
+    offs = [0, 4, 8, 12]
+    k = next((i for i, o in enumerate(probe) if o == "eof_dos"), len(probe))
+    L = offs[k] + 63 if k < len(probe) else 200
+    f = bytearray(L)
+    for i in range(k):
+        a, o = offs[i], probe[i]
+        if o == "bad_lfanew":
+            lf = 0
+        elif o == "eof_hdr":
+            lf = L - a - 14
+        else:
+            t = 20 + 8 * i
+            lf = t - a - 4
+            if o in ("x86", "x64"):
+                struct.pack_into("<H", f, t, 0x014C if o == "x86" else 0x8664)
+        struct.pack_into("<i", f, a + 60, lf)
+    data = bytes(f)
+    # precondition: the controlled offsets probe as intended and no other offset holds a PE header
+    if [probe_outcome(data, a) for a in offs] != list(probe):
+        return None
+    if any(probe_outcome(data, o) in ("x86", "x64") for o in range(0, 1024) if o not in offs):
+        return None
+    return data, offs
+
+
 def opt(v):
     return None if v == "none" else B(v)
 
@@ -116,6 +156,45 @@ def run(ctx):
     ctx.notes["scenarios_skipped_precondition"] = skipped
     ctx.sample({"pe_scenario": tab_[5]["scn"], "expect": {k: (v if not isinstance(v, list) or len(v) < 10 else f"<{len(v)} bytes>") for k, v in tab_[5]["expect"].items()}})
     ctx.traces += len(tab_)
+
+    # ---- the header scan as a state machine (PEScan.tla): every vector of probe outcomes for four offsets
+    from vt import tlaval
+
+    pcfg = "CONSTANTS\n N = 4\n BREAKONEOF = %s\nSPECIFICATION Spec\nINVARIANT Correct\nPROPERTY Terminates\nCHECK_DEADLOCK FALSE\n"
+    dot = ctx.outdir / "pescan.dot"
+    rs = ctx.tlc("PEScan", pcfg % "FALSE", name="pescan", workers=4, extra=["-dump", "dot,actionlabels", str(dot)])
+    core.require_clean(rs, "PEScan")
+    core.require_coverage(rs, ["Step"])
+    rs0 = ctx.tlc("PEScan", pcfg % "TRUE", name="pescan-breakoneof", workers=2, coverage=False)
+    if rs0.ok:
+        raise core.MachineryError("PEScan.tla accepts a scan that stops at the first end-of-data (vacuous?)")
+    gs = tlaval.Graph(dot)
+    dot.unlink()
+    n_scan = skipped_scan = 0
+    for st in gs.nodes.values():
+        if st["pc"] != "done":
+            continue
+        c = concretise_probes(st["probe"])
+        if c is None:
+            skipped_scan += 1
+            continue
+        data, offs = c
+        res = st["result"]
+        want_mz = offs[res["at"] - 1] if res["found"] else None
+        want_arch = res["arch"] if res["found"] else None
+        got_mz = core.outcome(pe.find_mz_offset, io.BytesIO(data))
+        got_arch = core.outcome(pe.find_architecture, io.BytesIO(data))
+        ctx.evaluations += 2
+        if got_mz != ("ok", want_mz) or got_arch != ("ok", want_arch):
+            viol("pe.find_mz_offset/find_architecture", "scan", {"probe_outcomes": st["probe"], "got": [str(got_mz), str(got_arch)], "expected": [want_mz, want_arch], "file_len": len(data)})
+        for fn in (pe.find_compile_stamps, pe.find_magic_mz, pe.find_magic_pe, pe.find_stage_prepend_append):
+            o_ = core.outcome(fn, io.BytesIO(data))
+            if o_[0] != "ok":
+                viol("pe." + fn.__name__, "scan_exception", {"probe_outcomes": st["probe"], "got": str(o_)})
+        n_scan += 1
+        ctx.count_distinct(("scan", tuple(st["probe"])))
+    ctx.traces += n_scan
+    ctx.notes["pescan"] = {"probe_vectors_replayed": n_scan, "skipped_by_precondition": skipped_scan}
 
     # ---- code -> spec: version strings and deduction, judged by TLC against the live tables
     ev = []
